@@ -50,6 +50,12 @@ claim("C10",
  "static analysis: CFG must-pass-through, SSA phi-shape recognition, summary-based mutation-footprint analysis (E1) rooted at the expression-node parameter, sibling field-write comparison (Init vs Decode)",
  "DESIGN.md §3 C10")
 
+claim("C18",
+ "Static shared-state analysis: (engine E1 with global roots) from every evaluation entry point — expression parsing, all operator handlers, codec / printer / evaluator methods and constructors — no store to a package-level variable or through one is reachable, except initialisation under sync.Once; dynamic calls through the lexer's rule table are resolved with the VTA call graph. No Decoder/Encoder instance is created in a package-level initialiser or captured by a lexer rule; the parsed expression tree carries no state between evaluations (C10-S3); clock / random / environment are read only by the excluded operators and cmd start-up; no map iteration feeds an ordered container or writer; decoder state is reset by Init. With no goroutines and no other sync primitive in the module, 'no evaluation-time write to shared module memory' is also sufficient for race freedom on module memory.",
+ TB + " Third-party packages are assumed goroutine-safe as documented.",
+ "static analysis: summary-based mutation-footprint analysis with global roots (E1), VTA call graph for table-driven dispatch, initialiser census, who-may-call for nondeterminism sources",
+ "DESIGN.md §3 C18")
+
 na = {
  "C01": "whole-property quantifies over runtime values of all programs x documents; no structural clause with detection value beyond what C09/C11 already check (DESIGN.md §3 C01)",
 }
